@@ -54,6 +54,57 @@ def c04(ctx):
                                "query options are sampled per chain with VERIF_SEED (%d per chain)" % nq])
 
 
+# ---------------------------------------------------------------------------
+# C14  RSL entry text and its parsed form determine each other
+
+def c14(ctx):
+    quick = ctx.quick()
+    mc = model_check(ctx, "MC_EntryCodec", dict(
+        constants={"MaxBody": 4 if quick else 5, "EmitAll": 2 if quick else 3, "EmitMod": 29 if quick else 97,
+                   "EmitRes": ctx.seed % (29 if quick else 97)},
+        invariants=["IRefinesD", "Idem", "RoundTrip"], constraints=["Emit"]), timeout=7200)
+    scns = [r for r in mc.records if r.get("t") == "SCN"]
+    if not scns:
+        raise Infra("TLC emitted no scenarios")
+    scn_path = os.path.join(ctx.scratch, "scn.ndjson")
+    write_ndjson(scn_path, scns)
+    parts = []
+    for mode, args in (("parse", ["-scn", scn_path, "-n", 2 if quick else 4]), ("record", []),
+                       ("fuzz", ["-n", 20000 if quick else 300000])):
+        out = os.path.join(ctx.scratch, "tr_%s.ndjson" % mode)
+        run_vh(ctx, ["codec", "-mode", mode, "-out", out, "-seed", ctx.seed] + args)
+        parts.append(out)
+    trace = os.path.join(ctx.scratch, "trace.ndjson")
+    with open(trace, "w") as f:
+        for p in parts:
+            f.write(open(p).read())
+    cls = validate_trace(ctx, "Trace_EntryCodec", trace, {})
+    tally = Tally(ctx)
+    accepted = 0
+    modes = {}
+    for rec in cls:
+        tally.add(rec["cls"], {"id": rec["id"], "mode": rec["mode"], "why": rec["why"]},
+                  nontrivial_key=(rec["mode"], rec["id"]) if rec["acc"] else None)
+        accepted += 1 if rec["acc"] else 0
+        modes[rec["mode"]] = modes.get(rec["mode"], 0) + 1
+    ctx.coverage_extra.update({"accepted_texts": accepted, "lines_by_mode": modes})
+    # replay files carry the offending line
+    if tally.violations:
+        lines = {}
+        for p in parts:
+            for r in read_ndjson(p):
+                lines[(r["mode"], r["id"])] = r
+        for v in tally.violations:
+            v["line"] = lines.get((v["mode"], v["id"]))
+    samples = [scns[len(scns) // 2]["text"], {"mode": "fuzz", "lines": modes.get("fuzz", 0)}]
+    return finish(ctx, tally, samples=samples, traces=len(cls), exhaustive=False,
+                  assumptions=["exhaustive at line-token level up to the body bound; bytes are covered by seeded "
+                               "renderings of each token text, by entries recorded through the real writers and by "
+                               "seeded structured mutations / raw random bytes projected to tokens by the harness lexer",
+                               "PEM message decoding is opaque: only equality of the decoded message is checked"])
+
+
 CHECKS = {
+    "C14": c14,
     "C04": c04,
 }
